@@ -27,6 +27,7 @@ R.contract("PeerConnection.work_write_queue", params={"self": "PeerConnection", 
            note="writer thread: raises nothing; each iteration appends exactly the encoding of the dequeued message, or nothing")
 R.loop("PeerConnection.work_write_queue", 0,
        invariants=[("write-lock-released-between-messages", "not self.write_lock.g_held")],
+       step_back=[("a-stopped-writer-leaves-at-its-next-iteration", "not prev(_thread.stopped)")],
        step=[("appends-the-encoding-or-nothing",
               "T_out(self) == prev(T_out(self)) or "
               "(len(self._write_msg_queue.g_taken) == prev(len(self._write_msg_queue.g_taken)) + 1 and "
@@ -152,3 +153,20 @@ if "PeerConnection.__new__" not in R.contracts:
                         "fresh(result.hop_by_hop_seq) and fresh(result._write_msg_queue) and fresh(result._read_thread) and "
                         "fresh(result._write_thread)"],
                note="ASSUMED (read from PeerConnection.__init__): a new connection object starts its two workers")
+
+# the interrupt-pipe case of the receive branch: rsock is the int self.interrupt_read
+R.contract("Node._handle_connections@for:rsock#interrupt", params={"self": "Node", "rsock": "int"},
+           ghost_out={"c": ("conn", "Opt[PeerConnection]")},
+           requires=[("is-the-interrupt-pipe", "rsock == self.interrupt_read")],
+           ensures=[("a-closed-connection-that-asked-for-attention-is-released",
+                     "implies(not is_none(c) and old(some(c).state) == %d, in_no_table(self, some(c)) and "
+                     "some(c).g_close_calls == old(some(c).g_close_calls) + 1)" % CLOSED)],
+           raises=[],
+           modifies=["*PeerConnection.state", "*StoppableThread.stopped", "*Socket.closed", "*Peer.connection",
+                     "*Peer.last_connect", "*Peer.last_disconnect", "*Peer.disconnect_reason",
+                     "dict:self.connections", "dict:self.peer_sockets", "dict:self.socket_peers",
+                     "dict:self._half_ready_connections", "dict:self._peer_waiting_answer", "*Event.flag", "*list:Peer"],
+           ghost_modifies=["*PeerConnection.g_close_calls", "*PeerConnection.g_close_reason", "*PeerConnection.g_attn"],
+           props=["C14", "C13", "C18"],
+           note="one iteration of `for rsock in ready_r` when rsock is the node's interrupt descriptor: the connection named "
+                "by the bytes read from the pipe is released if it had closed itself")
